@@ -785,6 +785,27 @@ func fcntlWrappers(p *Program) map[*ssa.Function]bool {
 			}
 		}
 	}
+	// … and, in turn, what hands one of its own parameters on to such a wrapper (`unlock(flock)`: set F_UNLCK, call lock)
+	for changed := true; changed; {
+		changed = false
+		for _, fn := range p.ModFuncs() {
+			if p.PkgShort(fn) != "db" || fn.Parent() != nil || out[fn] {
+				continue
+			}
+			for _, cs := range callsIn(fn) {
+				callee := cs.Common().StaticCallee()
+				if callee == nil || !out[callee] {
+					continue
+				}
+				for _, a := range cs.Common().Args {
+					if pa, isParam := resolveCell(a).(*ssa.Parameter); isParam && strings.HasSuffix(pa.Type().String(), "unix.Flock_t") {
+						out[fn] = true
+						changed = true
+					}
+				}
+			}
+		}
+	}
 	return out
 }
 
